@@ -390,6 +390,26 @@ pub fn run_c03(out: &mut Out, rng: &mut Rng, thorough: bool, only: Option<&str>)
                 s.fin(g);
             }
         }
+        // the far end: the same bytes in 1-3 byte pieces and in one piece (a clone), across the
+        // 2^32 - 4 and 4 224 281 216 byte marks (from an injected state a few bytes before)
+        for (k, mark) in [(1u64 << 32) - 4, 4_224_281_216u64].into_iter().enumerate() {
+            let back = 6 + rng.below(5);
+            let mut st = craft_state(*v, rng, k);
+            st.len = (mark - back - 4) as u32;
+            s.inject(0, &st);
+            s.clone_gen(0, 1);
+            let total = back as usize + 9;
+            let data = rng.bytes(total);
+            let mut off = 0;
+            while off < total {
+                let n = (rng.range(1, 3) as usize).min(total - off);
+                s.update(0, &data[off..off + n]);
+                off += n;
+            }
+            s.update(1, &data);
+            s.fin(0);
+            s.fin(1);
+        }
     }
 }
 
